@@ -582,6 +582,8 @@ def run(ctx):
     # serialised bytes remembered on the part are what the next save writes, whatever was edited since (memo rule shared with C14)
     from .c14 import r14i
     r14i(ctx)
+    from .round12 import r11m
+    r11m(ctx)
 
 
 from ..selftest import Seed, unparse_seed  # noqa: E402
